@@ -234,7 +234,7 @@ def lossless(s):
 
 def vc_cfg(s):
     from renormalizer.utils import CompressConfig, CompressCriteria
-    s.compress_config = CompressConfig(CompressCriteria.fixed, max_bonddim=8, vmethod="2site", vguess_m=(8, 8))
+    s.compress_config = CompressConfig(CompressCriteria.fixed, max_bonddim=8, vmethod="2site", vguess_m=(2, 8))   # lossy operator guess: the operator handed in must survive it
 
 
 def expand_cfg(s):
@@ -264,6 +264,166 @@ def dump_load(c, s):
     finally:
         import shutil
         shutil.rmtree(d, ignore_errors=True)
+
+
+
+# ----------------------------------------------------------------------------------------------- trees (TTNS / TTNO)
+
+TREE_SHAPES = {
+    # name -> (preorder parent vector, groups of basis-set indices per node)
+    "linear": ([-1, 0, 1, 2], [[0], [1], [2], [3]]),
+    "star": ([-1, 0, 0, 0], [[0], [1], [2], [3]]),
+    "virtual-root+pair": ([-1, 0, 0, 2], [[], [0, 1], [2], [3]]),
+}
+
+
+def make_tree_ctx(shape, seed):
+    from renormalizer.tn import TTNS, TTNO
+    from mc import trees as TR
+    from mc.chains import basis_list, neutral_terms, raising_terms
+    c = Ctx()
+    c.fam = "tree:" + shape
+    parent, groups = TREE_SHAPES[shape]
+    basis = basis_list("eph", 4)
+    rs = env.rng(seed, ("c13tree", shape))
+    h_terms = neutral_terms("eph", 4, rs)
+    r_terms = raising_terms("eph", 4, rs)
+    tree = TR.build_basis_tree(parent, groups, basis)
+    c.order = list(basis)
+    c.tree = tree
+    c.H = TTNO(tree, h_terms)
+    c.P = TTNO(tree, r_terms)
+    env.reseed(seed, ("c13tree", shape, "a"))
+    c.a = TTNS.random(tree, np.array([1]), 4)
+    env.reseed(seed, ("c13tree", shape, "x"))
+    c.x = TTNS.random(tree, np.array([1]), 3)
+    c.x = c.x.to_complex(inplace=True) if False else c.x
+    c.a.canonicalise()
+    c.a.canonicalise()
+    return c
+
+
+def tree_snap(c, obj):
+    from renormalizer.tn import TTNO
+    if isinstance(obj, TTNO):
+        return (np.asarray(obj.todense(c.order)).copy(), np.asarray(obj.qntot).copy())
+    from mc import trees as TR
+    return (TR.dense_state(obj, c.order).copy(), np.asarray(obj.qntot).copy())
+
+
+def tree_same(c, obj, s, tol=TOL):
+    d = tree_snap(c, obj)
+    if not close(d[0], s[0], tol):
+        return f"represented object changed (rel {rel_err(d[0], s[0]):.2e})"
+    if np.any(d[1] != s[1]):
+        return f"qntot changed {s[1].tolist()} -> {d[1].tolist()}"
+    return None
+
+
+def tree_cfg(t, scheme):
+    from renormalizer.utils import EvolveConfig, EvolveMethod, CompressConfig, CompressCriteria
+    method = {"vmf": EvolveMethod.tdvp_vmf, "pc": EvolveMethod.prop_and_compress_tdrk4, "ps": EvolveMethod.tdvp_ps, "ps2": EvolveMethod.tdvp_ps2}[scheme]
+    t.evolve_config = EvolveConfig(method, force_ovlp=False, ivp_rtol=1e-5, ivp_atol=1e-8)
+    t.compress_config = CompressConfig(CompressCriteria.fixed, max_bonddim=6)
+
+
+def tree_derivations():
+    D = {}
+    for scheme in ("vmf", "pc", "ps", "ps2"):
+        for timek, dt in (("real", 0.04), ("imag", -0.04j)):
+            D[f"evolve[{scheme},{timek}]"] = lambda c, s, scheme=scheme, dt=dt: (tree_cfg(s, scheme), s.evolve(c.H, dt))[1]
+    D["evolve[ps,real,normalize=False]"] = lambda c, s: (tree_cfg(s, "ps"), s.evolve(c.H, 0.04, normalize=False))[1]
+    D["H.apply(s)"] = lambda c, s: c.H.apply(s)
+    D["H@s"] = lambda c, s: c.H @ s
+    D["H.apply(s,canonicalise=True)"] = lambda c, s: c.H.apply(s, canonicalise=True)
+    D["P.apply(s)"] = lambda c, s: c.P.apply(s)
+    D["H.contract(s)"] = lambda c, s: (tree_cfg(s, "ps"), c.H.contract(s))[1]
+    D["s.add(x)"] = lambda c, s: s.add(c.x)
+    D["x.add(s)"] = lambda c, s: c.x.add(s)
+    D["s+x"] = lambda c, s: s + c.x
+    D["s.scale(2)"] = lambda c, s: s.scale(2.0)
+    D["s.scale(1j)"] = lambda c, s: s.to_complex().scale(1j) if not np.iscomplexobj(s.root.tensor) else s.scale(1j)
+    D["s.copy()"] = lambda c, s: s.copy()
+    D["s.to_complex()"] = lambda c, s: s.to_complex()
+    D["s.copy().compress()"] = lambda c, s: tree_compress_copy(c, s)
+    D["optimize_ttns(s.copy(),H)"] = lambda c, s: tree_opt(c, s)
+    D["s.dump+load"] = lambda c, s: tree_dump_load(c, s)
+    # measurements
+    D["s.expectation(H)"] = lambda c, s: (s.expectation(c.H), None)[1]
+    D["s.expectation1(H,bra=x)"] = lambda c, s: (s.expectation1(c.H, bra=c.x), None)[1]
+    D["x.expectation1(H,bra=s)"] = lambda c, s: (c.x.expectation1(c.H, bra=s), None)[1]
+    D["s.calc_1site_rdm()"] = lambda c, s: (s.calc_1site_rdm(), None)[1]
+    D["s.calc_1dof_rdm()"] = lambda c, s: (s.calc_1dof_rdm(), None)[1]
+    D["s.calc_1site_entropy()"] = lambda c, s: (s.calc_1site_entropy(), None)[1]
+    D["s.calc_2dof_rdm"] = lambda c, s: (s.calc_2dof_rdm([(0, 1), (0, 3), (1, 2)]), None)[1]
+    D["s.calc_2dof_mutual_info"] = lambda c, s: (s.calc_2dof_mutual_info([(0, 1), (0, 3)]), None)[1]
+    D["s.calc_bond_singular_values()"] = lambda c, s: (s.calc_bond_singular_values(), None)[1]
+    D["s.calc_bond_entropy()"] = lambda c, s: (s.calc_bond_entropy(), None)[1]
+    D["s.ttns_norm"] = lambda c, s: (s.ttns_norm, None)[1]
+    D["s.todense()"] = lambda c, s: (s.todense(c.order), None)[1]
+    D["s.check_canonical()"] = lambda c, s: (s.check_canonical(), None)[1]
+    return D
+
+
+def tree_compress_copy(c, s):
+    from renormalizer.utils import CompressConfig, CompressCriteria
+    t = s.copy()
+    t.compress_config = CompressConfig(CompressCriteria.fixed, max_bonddim=2)
+    t.canonicalise()
+    t.compress()
+    return t
+
+
+def tree_opt(c, s):
+    from renormalizer.tn.gs import optimize_ttns
+    guess = s.copy()
+    optimize_ttns(guess, c.H, procedure=[[4, 0.3], [6, 0]])
+    return guess
+
+
+def tree_dump_load(c, s):
+    import os
+    import shutil
+    import tempfile
+    d = tempfile.mkdtemp(prefix="c13t_")
+    try:
+        p = os.path.join(d, "t.npz")
+        s.dump(p)
+        return type(s).load(c.tree, p)
+    finally:
+        shutil.rmtree(d, ignore_errors=True)
+
+
+TREE_PRODUCING2 = ["evolve[pc,real]", "evolve[ps,imag]", "evolve[ps2,real]", "evolve[vmf,real]", "H.apply(s)", "P.apply(s)", "s.add(x)", "s.scale(2)",
+                   "s.copy()", "s.to_complex()", "H.contract(s)"]
+
+
+def tree_mutations():
+    from renormalizer.utils import CompressConfig, CompressCriteria
+    mus = {}
+    mus["scale(3,inplace)"] = lambda t: t.scale(3.0, inplace=True)
+    mus["canonicalise"] = lambda t: t.canonicalise()
+
+    def trunc(t):
+        t.canonicalise()
+        t.compress_config = CompressConfig(CompressCriteria.fixed, max_bonddim=1)
+        t.compress()
+    mus["compress(M=1)"] = trunc
+    mus["normalize(ttns_and_coeff)"] = lambda t: t.normalize("ttns_and_coeff")
+    mus["normalize(ttns_norm_to_coeff)"] = lambda t: t.normalize("ttns_norm_to_coeff")
+
+    def setnode(t):
+        n = t.node_list[len(t.node_list) // 2]
+        n.tensor = n.tensor * 0.25
+    mus["node.tensor=0.25*node.tensor"] = setnode
+
+    def inplace_node(t):
+        n = t.node_list[-1]
+        n.tensor *= 0.5
+    mus["node.tensor*=0.5"] = inplace_node
+    mus["coeff=0.3"] = lambda t: setattr(t, "coeff", 0.3 * t.coeff)
+    mus["to_complex(inplace)"] = lambda t: t.to_complex(inplace=True)
+    return mus
 
 
 STATE_PRODUCING_QUICK = ["evolve[P&C,real,H]", "evolve[PS,imag,H]", "evolve[PS2,real,H]", "evolve[CMF,real,H]", "H.apply(s)", "P.apply(s)",
@@ -310,13 +470,30 @@ def cases(tier, seed):
                 if m2 in D:
                     yield {"fam": fam, "m": m, "m2": m2}
         if tier != "quick" or fam == "eph":
-            # the second derivation may also be a measurement of b
+            # the second derivation may also be a measurement of b  (tree cases are appended at the end)
             for m in (STATE_PRODUCING_QUICK if tier == "quick" else producing2):
                 if m not in D:
                     continue
                 for m2 in names:
                     if m2 not in producing2:
                         yield {"fam": fam, "m": m, "m2": m2}
+    yield from tree_cases(tier)
+
+
+def tree_cases(tier):
+    D = tree_derivations()
+    shapes = list(TREE_SHAPES) if tier != "quick" else ["star", "virtual-root+pair"]
+    for shape in shapes:
+        for m in D:
+            yield {"fam": "tree:" + shape, "m": m, "m2": None}
+            for m2 in (TREE_PRODUCING2 if tier != "quick" else TREE_PRODUCING2[::2] + ["s.copy()"]):
+                yield {"fam": "tree:" + shape, "m": m, "m2": m2}
+        for m in TREE_PRODUCING2:
+            for m2 in D:
+                if m2 not in TREE_PRODUCING2:
+                    if tier == "quick" and shape != "star":
+                        continue
+                    yield {"fam": "tree:" + shape, "m": m, "m2": m2}
 
 
 def run_program(fam, seed, m, m2, D, MU):
@@ -324,18 +501,40 @@ def run_program(fam, seed, m, m2, D, MU):
     the whole set of live objects (a single deepcopy call preserves any aliasing between them, which is what the mutation
     step is about).  returns (status, violations, maxbond, n_mutations_run)"""
     from mc.budget import rhs_budget, BudgetExceeded
-    c = make_ctx(fam, seed)
-    live = {"a": c.a, "x": c.x, "H": c.H, "Hoff": c.Hoff, "P": c.P}
-    snaps = {k: snap(v) for k, v in live.items()}
+    is_tree = fam.startswith("tree:")
+    if is_tree:
+        from renormalizer.tn import TTNO
+        c = make_tree_ctx(fam.split(":", 1)[1], seed)
+        live = {"a": c.a, "x": c.x, "H": c.H, "P": c.P}
+        snap_ = lambda v: tree_snap(c, v)
+        same_ = lambda v, s_, tol=TOL: tree_same(c, v, s_, tol)
+        is_op = lambda v: isinstance(v, TTNO)
+        bonds = lambda v: list(v.bond_dims) or [1]
+
+        def probe_(v):
+            v.canonicalise()
+            v.canonicalise()
+    else:
+        c = make_ctx(fam, seed)
+        live = {"a": c.a, "x": c.x, "H": c.H, "Hoff": c.Hoff, "P": c.P}
+        snap_ = snap
+        same_ = same
+        is_op = lambda v: M.kind_of(v) == "mpo"
+        bonds = lambda v: v.bond_dims
+
+        def probe_(v):
+            v.ensure_left_canonical()
+            v.ensure_right_canonical()
+    snaps = {k: snap_(v) for k, v in live.items()}
     viol = []
-    maxbond = max(c.a.bond_dims)
+    maxbond = max(bonds(c.a))
 
     def check(objs, step, exclude=(), mu=None, target=None):
         for k, v in objs.items():
             if k in exclude:
                 continue
             try:
-                msg = same(v, snaps[k])
+                msg = same_(v, snaps[k])
             except Exception as e:
                 msg = f"observer raised {e!r}"
             if msg:
@@ -367,8 +566,8 @@ def run_program(fam, seed, m, m2, D, MU):
     check(live, f"b={m}(a)")
     if b is not None:
         live["b"] = b
-        snaps["b"] = snap(b)
-        maxbond = max(maxbond, max(b.bond_dims))
+        snaps["b"] = snap_(b)
+        maxbond = max(maxbond, max(bonds(b)))
     if viol:
         return "ok", viol, maxbond, 0
     if m2 is not None:
@@ -382,7 +581,7 @@ def run_program(fam, seed, m, m2, D, MU):
         check(live, f"c={m2}({'b' if b is not None else 'a'})")
         if cc is not None:
             live["c"] = cc
-            snaps["c"] = snap(cc)
+            snaps["c"] = snap_(cc)
         if viol:
             return "ok", viol, maxbond, 0
     nmut = 0
@@ -390,7 +589,7 @@ def run_program(fam, seed, m, m2, D, MU):
         for target in ((None,) if mu_name is None else ("a", "b", "c")):
             objs = copy.deepcopy(live)
             if mu_name is not None:
-                if target not in objs or M.kind_of(objs[target]) == "mpo":
+                if target not in objs or is_op(objs[target]):
                     continue
                 try:
                     guarded(lambda: MU[mu_name](objs[target]))
@@ -400,12 +599,11 @@ def run_program(fam, seed, m, m2, D, MU):
                 check(objs, f"{mu_name} on {target}", exclude=(target,), mu=mu_name, target=target)
             # probe: the untouched objects must still be usable (labels consistent with tensors)
             for k, v in objs.items():
-                if k == target or M.kind_of(v) == "mpo" or np.linalg.norm(snaps[k][0]) < 1e-12:
+                if k == target or is_op(v) or np.linalg.norm(snaps[k][0]) < 1e-12:
                     continue
                 try:
-                    v.ensure_left_canonical()
-                    v.ensure_right_canonical()
-                    msg = same(v, snaps[k], 1e-8)
+                    probe_(v)
+                    msg = same_(v, snaps[k], 1e-8)
                 except Exception as e:
                     msg = f"canonicalising it raised {e!r}"
                 if msg:
@@ -417,8 +615,8 @@ def run_program(fam, seed, m, m2, D, MU):
 
 def run_case(desc, seed):
     fam, m, m2 = desc["fam"], desc["m"], desc["m2"]
-    D = derivations(fam)
-    MU = mutations()
+    D = tree_derivations() if fam.startswith("tree:") else derivations(fam)
+    MU = tree_mutations() if fam.startswith("tree:") else mutations()
     viol = {}
     status, v, maxbond, nmut = run_program(fam, seed, m, m2, D, MU)
     transitions = (0 if status == "refused" else 1 + (1 if m2 else 0)) + nmut
@@ -430,6 +628,8 @@ def run_case(desc, seed):
             sig = f"C13:{kind}:after:{_gen(m)}" + (f"+{_gen(m2)}" if m2 else "")
         else:
             sig = f"C13:{kind}:mutation:{mu}:of:{t}:derived-by:{_gen(m)}" + (f"+{_gen(m2)}" if m2 else "")
+        if fam.startswith("tree:"):
+            sig = sig.replace("C13:", "C13:tree:", 1)
         if sig not in viol:
             viol[sig] = {"sig": sig, "msg": f"[{fam}] program: b={m}(a)" + (f"; c={m2}(b)" if m2 else "") + f" -- {msg}"}
     return {"nontrivial": status in ("ok", "aborted") and maxbond > 1, "states": 1 + transitions, "transitions": transitions,
